@@ -1335,4 +1335,917 @@ Proof.
       * apply F; auto. destruct err1; [exfalso; apply N; congruence|reflexivity].
 Qed.
 
+Lemma pnr_smap st st' done :
+  process_new_results prm o st = (st', done, None) ->
+  exists sd, map fst sd = poll_order (s_running st) (o_ord o (s_np st)) /\
+    s_smap st' = aupdate (s_smap st) (aupdate sd done) /\ keys_ok done (map fst sd) /\
+    (forall t, In (t, Failed) sd -> amem t done = true).
+Proof.
+  unfold process_new_results.
+  set (order := poll_order (s_running st) (o_ord o (s_np st))).
+  set (st0 := emit (EBFetch order) (set_np st (S (s_np st)))).
+  destruct (fetch o order st0) as [[st1 sd] rs] eqn:Ef.
+  apply fetch_spec in Ef. destruct Ef as (A & _ & _ & _ & _ & _ & Hsdk & _ & Hrs).
+  set (st1' := emit (ECbFetch sd (map (fun r => (fst (fst r), snd (fst r))) rs)) st1).
+  destruct (Nat.ltb (n_workers prm) (length (s_running st1'))); [discriminate|].
+  destruct (loop1 o sd rs st1' []) as [st2 done2] eqn:E1.
+  pose proof E1 as E1c. apply loop1_budget in E1c. destruct E1c as (C1 & _).
+  apply (loop1_keys sd rs (map fst sd)) in E1.
+  2:{ intros r Hr. rewrite Hsdk. apply Hrs. exact Hr. }
+  2:{ split; [constructor|intros x []]. }
+  destruct (loop2 sd st2 done2) as [[st3 done3] err3] eqn:E2. unfold loop2 in E2.
+  pose proof E2 as E2c. apply (loop2_budget sd) in E2c. destruct E2c as (C2 & _).
+  apply (loop2_keys (map fst sd)) in E2; [|intros e He; apply in_map; exact He|exact E1].
+  destruct E2 as (K & _ & F & _).
+  destruct err3; [discriminate|]. intro H. injection H as <- <-.
+  exists sd. split; [exact Hsdk|]. split; [|split; [exact K|apply F; reflexivity]].
+  destruct (status_update_frame (aupdate sd done3) rs st3) as (_ & _ & _ & _ & F5 & _). rewrite F5.
+  f_equal. destruct C2 as (_ & _ & -> & _). destruct C1 as (_ & _ & -> & _).
+  unfold st1'. cbn [s_smap emit]. destruct A as (_ & _ & _ & _ & _ & -> & _). reflexivity.
+Qed.
+
+Definition sinv (st : state) : Prop :=
+  map fst (s_smap st) = seq 0 (s_ntrials st) /\
+  (forall t, In t (s_running st) -> t < s_ntrials st) /\
+  (forall t, aget t (s_smap st) = Some Failed -> aget t (s_doneall st) = Some Failed).
+
+Lemma aupdate_sd_done_keys sd done :
+  keys_ok done (map fst sd) -> map fst (aupdate sd done) = map fst sd.
+Proof. intros [_ H]. apply aupdate_keys. exact H. Qed.
+
+Lemma poll_sinv st st' err : poll prm o st = (st', err) -> binv st -> sinv st -> sinv st'.
+Proof.
+  unfold poll. destruct (process_new_results prm o (emit ECbLoopStart st)) as [[st1 done] err1] eqn:E.
+  pose proof E as Eb. apply pnr_budget in Eb. destruct Eb as (R1 & R2 & R3 & _).
+  simpl in R1, R2, R3. intros H Hb (S1 & S2 & S3).
+  destruct err1 as [e|].
+  - injection H as <- <-.
+    (* an exception inside _process_new_results: neither status map nor done_trials_statuses were updated *)
+    assert (Hsm : s_smap st1 = s_smap st).
+    { clear - E. unfold process_new_results in E.
+      set (order := poll_order (s_running (emit ECbLoopStart st)) (o_ord o (s_np (emit ECbLoopStart st)))) in *.
+      set (st0 := emit (EBFetch order) (set_np (emit ECbLoopStart st) (S (s_np (emit ECbLoopStart st))))) in *.
+      destruct (fetch o order st0) as [[st1' sd] rs] eqn:Ef.
+      apply fetch_spec in Ef. destruct Ef as (A & _).
+      set (st1'' := emit (ECbFetch sd (map (fun r => (fst (fst r), snd (fst r))) rs)) st1') in *.
+      destruct (Nat.ltb (n_workers prm) (length (s_running st1''))).
+      { injection E as <- _ _. unfold st1''. cbn [s_smap emit]. destruct A as (_ & _ & _ & _ & _ & -> & _). reflexivity. }
+      destruct (loop1 o sd rs st1'' []) as [st2 done2] eqn:E1.
+      apply loop1_budget in E1. destruct E1 as (C1 & _).
+      destruct (loop2 sd st2 done2) as [[st3 done3] err3] eqn:E2. unfold loop2 in E2.
+      apply (loop2_budget sd) in E2. destruct E2 as (C2 & _).
+      destruct err3; [|discriminate]. injection E as <- _ _.
+      destruct C2 as (_ & _ & -> & _). destruct C1 as (_ & _ & -> & _).
+      unfold st1''. cbn [s_smap emit]. destruct A as (_ & _ & _ & _ & _ & -> & _). reflexivity. }
+    unfold sinv. rewrite Hsm, R1, R2, R3. auto.
+  - injection H as <- <-.
+    apply pnr_smap in E. destruct E as (sd & Hk & Hsm & Hkeys & HF). simpl in Hk, Hsm.
+    assert (Hord : forall t, In t (map fst sd) -> t < s_ntrials st).
+    { intros t Ht. rewrite Hk in Ht. apply poll_order_incl in Ht. auto. }
+    assert (Hnd : NoDup (map fst sd)) by (rewrite Hk; apply poll_order_NoDup; apply Hb).
+    assert (HU : map fst (aupdate sd done) = map fst sd) by (apply aupdate_sd_done_keys; exact Hkeys).
+    unfold sinv. cbn [s_smap s_ntrials s_running s_doneall set_running set_doneall]. rewrite R2. split; [|split].
+    + rewrite Hsm. rewrite aupdate_keys; [exact S1|]. intros k Hk'. rewrite HU in Hk'.
+      rewrite S1. apply in_seq. specialize (Hord k Hk'). lia.
+    + intros t Ht. apply remove_all_In in Ht. rewrite R1 in Ht. apply S2. tauto.
+    + intros t Ht. rewrite Hsm in Ht. rewrite R3.
+      destruct (in_dec Nat.eq_dec t (map fst (aupdate sd done))) as [Hin|Hnin].
+      * (* the entry was written by this poll *)
+        assert (HndU : NoDup (map fst (aupdate sd done))) by (rewrite HU; exact Hnd).
+        destruct (aget t (aupdate sd done)) as [v|] eqn:Ev; [|apply aget_none_notin in Ev; tauto].
+        rewrite (aget_aupdate_in _ _ _ _ HndU Ev) in Ht. injection Ht as ->.
+        destruct (aget t done) as [v|] eqn:Ed.
+        -- rewrite (aget_aupdate_in _ _ _ _ (proj1 Hkeys) Ed) in Ev. injection Ev as ->.
+           apply aget_aupdate_in; [apply Hkeys|exact Ed].
+        -- exfalso. assert (Hnd' : ~ In t (map fst done)) by (apply aget_none_notin; exact Ed).
+           rewrite aget_aupdate_notin in Ev by exact Hnd'. apply aget_In in Ev. apply HF in Ev.
+           unfold amem in Ev. rewrite Ed in Ev. discriminate.
+      * rewrite aget_aupdate_notin in Ht by exact Hnin.
+        rewrite aget_aupdate_notin; [apply S3; exact Ht|].
+        intro Hd. apply Hnin. rewrite HU. apply Hkeys. exact Hd.
+Qed.
+
+Lemma sinv_frame st st' :
+  s_smap st' = s_smap st -> s_ntrials st' = s_ntrials st -> s_running st' = s_running st ->
+  s_doneall st' = s_doneall st -> sinv st -> sinv st'.
+Proof. unfold sinv. intros -> -> -> ->. auto. Qed.
+
+Lemma schedule_new_task_sinv st st' r : schedule_new_task o st = (st', r) -> sinv st -> sinv st'.
+Proof.
+  unfold schedule_new_task. intros H (S1 & S2 & S3).
+  assert (Hreg : forall t (l : list nat) x, In x (if mem_nat t l then l else l ++ [t]) -> x = t \/ In x l).
+  { intros t l x. destruct (mem_nat t l); [auto|]. intro Hx. apply in_app_or in Hx. destruct Hx as [Hx|[Hx|[]]]; auto. }
+  assert (HF : forall t, forall x, aget x (aset t InProgress (s_smap st)) = Some Failed -> aget x (s_doneall st) = Some Failed).
+  { intros t x Hx. destruct (Nat.eq_dec x t) as [->|Hne]; [rewrite aget_aset_same in Hx; discriminate|].
+    rewrite aget_aset_other in Hx by exact Hne. auto. }
+  destruct (o_sug o (s_ns st)) as [|cfg ck|id cfg].
+  - injection H as <- <-. eapply sinv_frame; try reflexivity. repeat split; auto.
+  - injection H as <- <-. unfold sinv.
+    cbn [s_running s_ntrials s_smap s_doneall set_smap set_running emit set_b set_bt set_ntrials set_ns].
+    split; [|split].
+    + rewrite aset_keys_new; [rewrite S1; symmetry; apply seq_S|]. rewrite S1, in_seq. lia.
+    + intros t Ht. apply Hreg in Ht. destruct Ht as [->|Ht]; [lia|]. apply S2 in Ht. lia.
+    + apply HF.
+  - destruct (Nat.ltb id (s_ntrials st)) eqn:Eid.
+    2:{ injection H as <- <-. eapply sinv_frame; try reflexivity. repeat split; auto. }
+    apply Nat.ltb_lt in Eid.
+    destruct (b_td (s_bt (emit (ESSuggest (s_ntrials st) (SResume id cfg)) (set_ns st (S (s_ns st)))) id)) eqn:Etd;
+      try (injection H as <- <-; eapply sinv_frame; try reflexivity; repeat split; auto; fail).
+    injection H as <- <-. unfold sinv.
+    cbn [s_running s_ntrials s_smap s_doneall set_smap set_running emit set_b set_bt set_ntrials set_ns].
+    split; [|split].
+    + rewrite aset_keys_in; [exact S1|]. rewrite S1, in_seq. lia.
+    + intros t Ht. apply Hreg in Ht. destruct Ht as [->|Ht]; [exact Eid|]. apply S2 in Ht. exact Ht.
+    + apply HF.
+Qed.
+
+Lemma schedule_k_sinv k : forall st st' r, schedule_k o k st = (st', r) -> sinv st -> sinv st'.
+Proof.
+  induction k as [|k IH]; intros st st' r H Hs; simpl in H; [injection H as <- <-; exact Hs|].
+  destruct (schedule_new_task o st) as [st1 r1] eqn:E1. apply schedule_new_task_sinv in E1; [|exact Hs].
+  destruct r1; [eauto| |]; injection H as <- <-; exact E1.
+Qed.
+
+Lemma schedule_new_tasks_sinv st st' r : schedule_new_tasks prm o st = (st', r) -> sinv st -> sinv st'.
+Proof.
+  unfold schedule_new_tasks. destruct (Nat.leb _ _).
+  - intros H Hs. injection H as <- <-. eapply sinv_frame; try reflexivity. exact Hs.
+  - apply schedule_k_sinv.
+Qed.
+
+Lemma iteration_end_sinv st st' c : iteration_end prm o st = (st', c) -> sinv st -> sinv st'.
+Proof.
+  unfold iteration_end, stop_condition. intros H Hs. injection H as <- <-. eapply sinv_frame; try reflexivity. exact Hs.
+Qed.
+
+Lemma loop_sinv fuel : forall st c ex st' x,
+  loop prm o fuel st c ex = (st', x) -> binv st -> sinv st -> sinv st'.
+Proof.
+  induction fuel as [|f IH]; intros st c ex st' x H Hb Hs.
+  - simpl in H. injection H as <- <-. exact Hs.
+  - rewrite loop_S in H. destruct (while_cond prm st c); [|injection H as <- <-; exact Hs].
+    destruct (poll prm o st) as [st1 err] eqn:Ep.
+    pose proof Ep as Ep'. apply poll_budget in Ep'; [|exact Hb]. destruct Ep' as (Hb1 & _ & _).
+    apply poll_sinv in Ep; [|exact Hb|exact Hs].
+    destruct err; [injection H as <- <-; exact Ep|].
+    destruct (ex || wait_completion prm && c).
+    + destruct (s_running st1) eqn:Er; [injection H as <- <-; exact Ep|].
+      destruct (iteration_end prm o (sleep st1)) as [st2 c'] eqn:Ei.
+      pose proof Ei as Ei'. apply iteration_end_budget in Ei'; [|apply binv_emit; exact Hb1].
+      apply iteration_end_sinv in Ei; [|eapply sinv_frame; try reflexivity; exact Ep].
+      eapply IH; [exact H|apply Ei'|exact Ei].
+    + destruct (schedule_new_tasks prm o st1) as [st2 r] eqn:Es.
+      pose proof Es as Es'. apply schedule_new_tasks_budget in Es'; [|exact Hb1]. destruct Es' as [Hb2 _].
+      apply schedule_new_tasks_sinv in Es; [|exact Ep].
+      destruct r.
+      * destruct (iteration_end prm o st2) as [st3 c'] eqn:Ei.
+        pose proof Ei as Ei'. apply iteration_end_budget in Ei'; [|exact Hb2].
+        apply iteration_end_sinv in Ei; [|exact Es]. eapply IH; [exact H|apply Ei'|exact Ei].
+      * destruct (iteration_end prm o st2) as [st3 c'] eqn:Ei.
+        pose proof Ei as Ei'. apply iteration_end_budget in Ei'; [|exact Hb2].
+        apply iteration_end_sinv in Ei; [|exact Es]. eapply IH; [exact H|apply Ei'|exact Ei].
+      * injection H as <- <-. exact Es.
+Qed.
+
+Lemma run_loop_sinv fuel st x : run_loop prm o fuel = (st, x) -> sinv st.
+Proof.
+  unfold run_loop, stop_condition. intro H. eapply loop_sinv; [exact H| |].
+  - unfold binv. simpl. repeat split; [constructor|lia|intros t Ht; lia].
+  - unfold sinv. simpl. repeat split; [intros t []|discriminate].
+Qed.
+
+(* counters *)
+Lemma mark_stopped_keys m : map fst (mark_stopped m) = map fst m.
+Proof. unfold mark_stopped. rewrite map_map. reflexivity. Qed.
+Lemma mark_stopped_not_in_progress m : num_status is_in_progress (mark_stopped m) = 0.
+Proof.
+  unfold num_status, mark_stopped. induction m as [|[k v] m IH]; simpl; [reflexivity|].
+  destruct v; simpl; exact IH.
+Qed.
+Lemma mark_stopped_failed m : num_status is_failed (mark_stopped m) = num_status is_failed m.
+Proof.
+  unfold num_status, mark_stopped. induction m as [|[k v] m IH]; simpl; [reflexivity|].
+  destruct v; simpl; rewrite IH; reflexivity.
+Qed.
+Lemma mark_stopped_aget m t : aget t (mark_stopped m) = Some Failed -> aget t m = Some Failed.
+Proof.
+  unfold mark_stopped. induction m as [|[k v] m IH]; simpl; [discriminate|].
+  destruct (Nat.eqb t k); [destruct v; intro H; try discriminate; exact H|exact IH].
+Qed.
+
+Lemma num_failed_pos m : 0 < num_status is_failed m -> exists t, In (t, Failed) m.
+Proof.
+  unfold num_status. induction m as [|[k v] m IH]; simpl; [lia|].
+  destruct v; simpl; try (intro H; destruct (IH H) as [t Ht]; exists t; auto; fail).
+  intros _. exists k. auto.
+Qed.
+
+Lemma first_failed_some m t : In (t, Failed) m -> exists t', first_failed m = Some t' /\ In (t', Failed) m.
+Proof.
+  induction m as [|[k v] m IH]; simpl; [tauto|]. intros [H|H].
+  - injection H as -> ->. exists t. auto.
+  - destruct v; try (destruct (IH H) as (t' & H1 & H2); exists t'; auto; fail). exists k. auto.
+Qed.
+Lemma mark_stopped_in_failed m t : In (t, Failed) (mark_stopped m) -> In (t, Failed) m.
+Proof.
+  unfold mark_stopped. intro H. apply in_map_iff in H. destruct H as ([k v] & Hx & Hin). simpl in Hx.
+  destruct v; injection Hx as <-; try discriminate. exact Hin.
+Qed.
+
+(* run = run_loop followed by the finally block *)
+Lemma run_spec fuel st out :
+  run prm o fuel = (st, out) -> out <> OutOfFuel ->
+  exists st0 err, run_loop prm o fuel = (st0, LExit err) /\ finalize prm o st0 err = (st, out).
+Proof.
+  unfold run. destruct (run_loop prm o fuel) as [st0 x] eqn:E. destruct x as [err|].
+  - intros H _. exists st0, err. auto.
+  - intro H. injection H as <- <-. congruence.
+Qed.
+
+Lemma run_failure_limit fuel st out :
+  run prm o fuel = (st, out) -> out <> OutOfFuel -> too_many_failures prm st = true ->
+  exists t, out = Raised (EFailureLimit t) /\ In (t, Failed) (s_doneall st).
+Proof.
+  intros H Hne Ht. apply run_spec in H; [|exact Hne]. destruct H as (st0 & err & Hl & Hf).
+  apply run_loop_sinv in Hl. destruct Hl as (S1 & S2 & S3).
+  apply finalize_spec in Hf. destruct Hf as (_ & _ & _ & Hda & Hsm & _ & _ & _ & Hlim).
+  specialize (Hlim Ht). unfold too_many_failures in Ht. apply Nat.ltb_lt in Ht. rewrite Hsm in Ht.
+  destruct (num_failed_pos (mark_stopped (s_smap st0))) as [t Hin]; [lia|].
+  apply mark_stopped_in_failed in Hin.
+  assert (Hget : aget t (s_smap st0) = Some Failed).
+  { apply In_aget_nodup; [rewrite S1; apply seq_NoDup|exact Hin]. }
+  apply S3, aget_In in Hget. destruct (first_failed_some _ _ Hget) as (t' & Hff & Hin').
+  rewrite Hff in Hlim. exists t'. rewrite Hda. auto.
+Qed.
+
+Lemma run_counters fuel st out :
+  run prm o fuel = (st, out) -> out <> OutOfFuel ->
+  map fst (s_smap st) = seq 0 (s_ntrials st) /\ num_status is_in_progress (s_smap st) = 0 /\
+  (forall t, t < s_ntrials st -> w_of st t <> InProgress).
+Proof.
+  intros H Hne. apply run_spec in H; [|exact Hne]. destruct H as (st0 & err & Hl & Hf).
+  apply run_loop_sinv in Hl. destruct Hl as (S1 & _).
+  apply finalize_spec in Hf. destruct Hf as (Hw & Hn & _ & _ & Hsm & _).
+  rewrite Hsm, Hn, mark_stopped_keys. split; [exact S1|]. split; [apply mark_stopped_not_in_progress|].
+  intros t Ht. apply Hw. exact Ht.
+Qed.
+
+Definition count_ev (p : event -> bool) (tr : list event) : nat := length (filter p tr).
+Lemma count_ev_app p a b : count_ev p (a ++ b) = count_ev p a + count_ev p b.
+Proof. unfold count_ev. rewrite filter_app, app_length. reflexivity. Qed.
+Lemma count_ev_none p q l : forallb q l = true -> (forall e, q e = true -> p e = false) -> count_ev p l = 0.
+Proof.
+  unfold count_ev. intros H Hq. rewrite forallb_forall in H. induction l as [|e l IH]; simpl; [reflexivity|].
+  rewrite (Hq e) by (apply H; left; reflexivity). apply IH. intros x Hx. apply H. right. exact Hx.
+Qed.
+
+Definition is_tuning_end (e : event) : bool := match e with ECbTuningEnd => true | _ => false end.
+Definition is_stop_all (e : event) : bool := match e with EBStopAll => true | _ => false end.
+
+Lemma run_finally_once fuel st out :
+  run prm o fuel = (st, out) -> out <> OutOfFuel ->
+  count_ev is_tuning_end (s_trace st) = 1 /\ count_ev is_stop_all (s_trace st) = 1 /\
+  exists stops st0 err, run_loop prm o fuel = (st0, LExit err) /\
+    s_trace st = stops ++ EBStopAll :: ECbTuningEnd :: s_trace st0 /\
+    forallb (fun e => match e with EBStop _ => true | _ => false end) stops = true.
+Proof.
+  intros H Hne. apply run_spec in H; [|exact Hne]. destruct H as (st0 & err & Hl & Hf).
+  pose proof (run_loop_events _ _ _ Hl) as Hev.
+  apply finalize_spec in Hf. destruct Hf as (_ & _ & _ & _ & _ & (stops & Htr & Hst) & _).
+  rewrite Htr. repeat split.
+  - rewrite count_ev_app. change (EBStopAll :: ECbTuningEnd :: s_trace st0) with ([EBStopAll; ECbTuningEnd] ++ s_trace st0).
+    rewrite count_ev_app.
+    rewrite (count_ev_none _ _ _ Hst) by (intros e He; destruct e; simpl in *; congruence).
+    rewrite (count_ev_none _ _ _ Hev) by (intros e He; destruct e; simpl in *; congruence). reflexivity.
+  - rewrite count_ev_app. change (EBStopAll :: ECbTuningEnd :: s_trace st0) with ([EBStopAll; ECbTuningEnd] ++ s_trace st0).
+    rewrite count_ev_app.
+    rewrite (count_ev_none _ _ _ Hst) by (intros e He; destruct e; simpl in *; congruence).
+    rewrite (count_ev_none _ _ _ Hev) by (intros e He; destruct e; simpl in *; congruence). reflexivity.
+  - exists stops, st0, err. auto.
+Qed.
+
+(* ======================================================================== *)
+(*  Part 7: a Hoare-style rule for the loop                                    *)
+(* ======================================================================== *)
+Lemma loop_rule (Ihead Imid : state -> bool -> Prop) (Final : state -> Prop) :
+  (forall st c, Ihead st c -> Final st) ->
+  (forall st c st' err, Ihead st c -> while_cond prm st c = true -> poll prm o st = (st', err) ->
+     (err = None -> Imid st' c) /\ (err <> None -> Final st')) ->
+  (forall st c, Imid st c -> Final st) ->
+  (forall st c ex st' c', Imid st c -> ex || wait_completion prm && c = true -> s_running st <> [] ->
+     iteration_end prm o (sleep st) = (st', c') -> Ihead st' c') ->
+  (forall st c ex st2 r, Imid st c -> ex || wait_completion prm && c = false ->
+     schedule_new_tasks prm o st = (st2, r) ->
+     match r with
+     | SErr _ => Final st2
+     | _ => forall st3 c', iteration_end prm o st2 = (st3, c') -> Ihead st3 c'
+     end) ->
+  forall fuel st c ex st' x, loop prm o fuel st c ex = (st', x) -> Ihead st c -> Final st'.
+Proof.
+  intros Hfin Hpoll Hmid Hwait Hsched. induction fuel as [|f IH]; intros st c ex st' x H Hi.
+  - simpl in H. injection H as <- <-. eapply Hfin; eauto.
+  - rewrite loop_S in H. destruct (while_cond prm st c) eqn:Ew; [|injection H as <- <-; eapply Hfin; eauto].
+    destruct (poll prm o st) as [st1 err] eqn:Ep.
+    destruct (Hpoll _ _ _ _ Hi Ew Ep) as [Hp1 Hp2].
+    destruct err as [e|]; [injection H as <- <-; apply Hp2; discriminate|].
+    specialize (Hp1 eq_refl).
+    destruct (ex || wait_completion prm && c) eqn:Eb.
+    + destruct (s_running st1) eqn:Er; [injection H as <- <-; eapply Hmid; eauto|].
+      destruct (iteration_end prm o (sleep st1)) as [st2 c'] eqn:Ei.
+      eapply IH; [exact H|]. eapply Hwait; eauto. rewrite Er. discriminate.
+    + destruct (schedule_new_tasks prm o st1) as [st2 r] eqn:Es.
+      pose proof (Hsched _ _ _ _ _ Hp1 Eb Es) as Hs.
+      destruct r.
+      * destruct (iteration_end prm o st2) as [st3 c'] eqn:Ei. eapply IH; [exact H|]. apply Hs. reflexivity.
+      * destruct (iteration_end prm o st2) as [st3 c'] eqn:Ei. eapply IH; [exact H|]. apply Hs. reflexivity.
+      * injection H as <- <-. exact Hs.
+Qed.
+
+Lemma while_cond_true_c st : while_cond prm st true = true -> wait_completion prm = true.
+Proof. unfold while_cond. simpl. destruct (wait_completion prm); [reflexivity|discriminate]. Qed.
+
+Lemma stop_condition_false st st' :
+  stop_condition prm o st = (st', false) -> criterion prm st (o_clk o (s_nc st)) = false.
+Proof.
+  unfold stop_condition. intro H. injection H as _ H. apply orb_false_iff in H. destruct H as [H _].
+  apply orb_false_iff in H. tauto.
+Qed.
+
+(* ======================================================================== *)
+(*  Part 8: overshoot of trial-count budgets (C12)                             *)
+(* ======================================================================== *)
+Lemma num_status_aset p k v m : num_status p (aset k v m) <= S (num_status p m).
+Proof.
+  unfold num_status. induction m as [|[k' v'] m IH]; simpl.
+  - destruct (p v); simpl; lia.
+  - destruct (Nat.eqb k k'); simpl.
+    + destruct (p v); destruct (p v'); simpl; lia.
+    + destruct (p v'); simpl; lia.
+Qed.
+Lemma num_status_aset_false p k v m : p v = false -> num_status p (aset k v m) <= num_status p m.
+Proof.
+  intro Hv. unfold num_status. induction m as [|[k' v'] m IH]; simpl.
+  - rewrite Hv. simpl. lia.
+  - destruct (Nat.eqb k k'); simpl.
+    + rewrite Hv. destruct (p v'); simpl; lia.
+    + destruct (p v'); simpl; lia.
+Qed.
+Lemma num_status_aupdate p u : forall m, num_status p (aupdate m u) <= num_status p m + length u.
+Proof.
+  unfold aupdate. induction u as [|[k v] u IH]; intro m; simpl; [lia|].
+  specialize (IH (aset k v m)). pose proof (num_status_aset p k v m). lia.
+Qed.
+
+Lemma pnr_err_smap st st' done e :
+  process_new_results prm o st = (st', done, Some e) -> s_smap st' = s_smap st.
+Proof.
+  unfold process_new_results.
+  set (order := poll_order (s_running st) (o_ord o (s_np st))).
+  set (st0 := emit (EBFetch order) (set_np st (S (s_np st)))).
+  destruct (fetch o order st0) as [[st1' sd] rs] eqn:Ef.
+  apply fetch_spec in Ef. destruct Ef as (A & _).
+  set (st1'' := emit (ECbFetch sd (map (fun r => (fst (fst r), snd (fst r))) rs)) st1').
+  destruct (Nat.ltb (n_workers prm) (length (s_running st1''))).
+  { intro E. injection E as <- _ _. unfold st1''. cbn [s_smap emit]. destruct A as (_ & _ & _ & _ & _ & -> & _). reflexivity. }
+  destruct (loop1 o sd rs st1'' []) as [st2 done2] eqn:E1.
+  apply loop1_budget in E1. destruct E1 as (C1 & _).
+  destruct (loop2 sd st2 done2) as [[st3 done3] err3] eqn:E2. unfold loop2 in E2.
+  apply (loop2_budget sd) in E2. destruct E2 as (C2 & _).
+  destruct err3; [|discriminate]. intro E. injection E as <- _ _.
+  destruct C2 as (_ & _ & -> & _). destruct C1 as (_ & _ & -> & _).
+  unfold st1''. cbn [s_smap emit]. destruct A as (_ & _ & _ & _ & _ & -> & _). reflexivity.
+Qed.
+
+Lemma poll_count p st st' err :
+  poll prm o st = (st', err) -> binv st ->
+  num_status p (s_smap st') <= num_status p (s_smap st) + n_workers prm.
+Proof.
+  unfold poll. destruct (process_new_results prm o (emit ECbLoopStart st)) as [[st1 done] err1] eqn:E.
+  intros H Hb. destruct err1 as [e|]; injection H as <- <-.
+  - apply pnr_err_smap in E. rewrite E. simpl. lia.
+  - apply pnr_smap in E. destruct E as (sd & Hk & Hsm & Hkeys & _). simpl in Hk, Hsm.
+    cbn [s_smap set_running set_doneall]. rewrite Hsm.
+    pose proof (num_status_aupdate p (aupdate sd done) (s_smap st)) as Hn.
+    assert (Hlen : length (aupdate sd done) <= n_workers prm).
+    { rewrite <- (map_length fst), (aupdate_sd_done_keys _ _ Hkeys), Hk.
+      assert (Hl : length (poll_order (s_running st) (o_ord o (s_np st))) <= length (s_running st)).
+      { apply NoDup_incl_length; [apply poll_order_NoDup; apply Hb|]. intros x Hx. eapply poll_order_incl; eauto. }
+      destruct Hb as (_ & I2 & _). lia. }
+    lia.
+Qed.
+
+Lemma schedule_new_task_count p st st' r :
+  p InProgress = false -> schedule_new_task o st = (st', r) ->
+  num_status p (s_smap st') <= num_status p (s_smap st) /\ s_ntrials st' <= S (s_ntrials st).
+Proof.
+  intro Hp. unfold schedule_new_task. destruct (o_sug o (s_ns st)) as [|cfg ck|id cfg].
+  - intro H; injection H as <- <-. simpl. lia.
+  - intro H; injection H as <- <-. cbn [s_smap s_ntrials set_smap set_running emit set_b set_bt set_ntrials set_ns].
+    split; [apply num_status_aset_false; exact Hp|lia].
+  - destruct (Nat.ltb id (s_ntrials st)); [|intro H; injection H as <- <-; simpl; lia].
+    destruct (b_td _); intro H; injection H as <- <-; try (simpl; lia).
+    cbn [s_smap s_ntrials set_smap set_running emit set_b set_bt set_ntrials set_ns].
+    split; [apply num_status_aset_false; exact Hp|lia].
+Qed.
+Lemma schedule_k_count p k : forall st st' r,
+  p InProgress = false -> schedule_k o k st = (st', r) ->
+  num_status p (s_smap st') <= num_status p (s_smap st) /\ s_ntrials st' <= s_ntrials st + k.
+Proof.
+  induction k as [|k IH]; intros st st' r Hp H; simpl in H; [injection H as <- <-; lia|].
+  destruct (schedule_new_task o st) as [st1 r1] eqn:E1. apply (schedule_new_task_count p) in E1; [|exact Hp].
+  destruct r1; [apply IH in H; [lia|exact Hp]| |]; injection H as <- <-; lia.
+Qed.
+Lemma schedule_new_tasks_count p st st' r :
+  p InProgress = false -> schedule_new_tasks prm o st = (st', r) ->
+  num_status p (s_smap st') <= num_status p (s_smap st) /\ s_ntrials st' <= s_ntrials st + n_workers prm.
+Proof.
+  intro Hp. unfold schedule_new_tasks. destruct (Nat.leb _ _).
+  - intro H; injection H as <- <-. simpl. lia.
+  - intro H. apply (schedule_k_count p) in H; [|exact Hp]. lia.
+Qed.
+
+(* a criterion that is False bounds every count it names *)
+Lemma criterion_false_counts st now :
+  criterion prm st now = false ->
+  zgt (length (s_smap st)) (c_started prm) = false /\
+  zgt (num_status is_completed (s_smap st)) (c_completed prm) = false /\
+  zgt (num_status is_finished (s_smap st)) (c_finished prm) = false /\
+  match c_evals prm with Some v => Z.ltb v (s_count st) = false | None => True end.
+Proof.
+  unfold criterion. intro H. repeat (apply orb_false_iff in H; destruct H as [H ?]).
+  repeat split; auto. destruct (c_evals prm); auto.
+Qed.
+Lemma zgt_false x b : zgt x (Some b) = false -> (Z.of_nat x <= b)%Z.
+Proof. unfold zgt. intro H. apply Z.ltb_ge in H. exact H. Qed.
+
+Lemma iteration_end_false st st' :
+  iteration_end prm o st = (st', false) ->
+  criterion prm st (o_clk o (s_nc st)) = false /\ s_smap st' = s_smap st /\ s_ntrials st' = s_ntrials st /\ s_count st' = s_count st.
+Proof.
+  unfold iteration_end. intro H. pose proof H as H'. apply stop_condition_false in H'.
+  unfold stop_condition in H. injection H as <- _. simpl in *. auto.
+Qed.
+Lemma iteration_end_frame st st' c :
+  iteration_end prm o st = (st', c) -> s_smap st' = s_smap st /\ s_ntrials st' = s_ntrials st /\ s_count st' = s_count st.
+Proof. unfold iteration_end, stop_condition. intro H. injection H as <- _. simpl. auto. Qed.
+
+Lemma poll_ntrials st st' err : poll prm o st = (st', err) -> s_ntrials st' = s_ntrials st.
+Proof.
+  unfold poll. destruct (process_new_results prm o (emit ECbLoopStart st)) as [[st1 done] err1] eqn:E.
+  apply pnr_budget in E. destruct E as (_ & R2 & _). simpl in R2.
+  destruct err1; intro H; injection H as <- <-; simpl; exact R2.
+Qed.
+
+(* max_num_trials_started: both settings of wait_trial_completion_when_stopping *)
+Lemma overshoot_started b fuel st x :
+  c_started prm = Some b -> (0 <= b)%Z -> run_loop prm o fuel = (st, x) ->
+  (Z.of_nat (length (s_smap st)) <= b + Z.of_nat (n_workers prm))%Z.
+Proof.
+  intros Hb Hb0 H.
+  set (N := fun s : state => Z.of_nat (s_ntrials s)).
+  set (lim := (b + Z.of_nat (n_workers prm))%Z).
+  assert (G : binv st /\ sinv st /\ (N st <= lim)%Z).
+  { unfold run_loop in H. destruct (stop_condition prm o (emit ECbTuningStart init_state)) as [st0 c0] eqn:E0.
+    eapply (loop_rule
+      (fun s c => binv s /\ sinv s /\ (N s <= lim)%Z /\ (c = false -> (N s <= b)%Z))
+      (fun s c => binv s /\ sinv s /\ (N s <= lim)%Z /\ (c = false -> (N s <= b)%Z) /\ (c = true -> wait_completion prm = true))
+      (fun s => binv s /\ sinv s /\ (N s <= lim)%Z)); [| | | | |exact H|].
+    - intros s c (A & B & C & _). auto.
+    - intros s c s' err (A & B & C & D) Ew Ep.
+      pose proof (poll_ntrials _ _ _ Ep) as Hn. pose proof (poll_sinv _ _ _ Ep A B) as Hs.
+      apply poll_budget in Ep; [|exact A]. destruct Ep as (Hb1 & _).
+      assert (HN : N s' = N s) by (unfold N; rewrite Hn; reflexivity).
+      split.
+      + intros _. split; [exact Hb1|]. split; [exact Hs|]. split; [rewrite HN; exact C|].
+        split; [intro Hc; rewrite HN; auto|]. intros ->. eapply while_cond_true_c; eauto.
+      + intros _. split; [exact Hb1|]. split; [exact Hs|]. rewrite HN; exact C.
+    - intros s c (A & B & C & _). auto.
+    - intros s c ex s' c' (A & B & C & D & E) _ _ Ei.
+      pose proof (iteration_end_frame _ _ _ Ei) as (F1 & F2 & _).
+      assert (HN : N s' = N s) by (unfold N; rewrite F2; reflexivity).
+      split; [eapply iteration_end_budget; [exact Ei|apply binv_emit; exact A]|].
+      split; [eapply iteration_end_sinv; [exact Ei|eapply sinv_frame; try reflexivity; exact B]|].
+      split; [rewrite HN; exact C|]. intros ->.
+      apply iteration_end_false in Ei. destruct Ei as (Hc & _).
+      apply criterion_false_counts in Hc. destruct Hc as (Hc & _). rewrite Hb in Hc. apply zgt_false in Hc.
+      simpl in Hc. destruct B as (S1 & _). rewrite <- (map_length fst), S1, seq_length in Hc. unfold N. rewrite F2. exact Hc.
+    - intros s c ex s2 r (A & B & C & D & E) Eb Es.
+      assert (Hc : c = false).
+      { destruct c; [|reflexivity]. rewrite (E eq_refl) in Eb. rewrite orb_true_r in Eb. discriminate. }
+      pose proof (schedule_new_tasks_count is_completed _ _ _ eq_refl Es) as (_ & Hn).
+      pose proof (schedule_new_tasks_sinv _ _ _ Es B) as Hs2.
+      pose proof (schedule_new_tasks_budget _ _ _ Es A) as (Hb2 & _).
+      assert (HN2 : (N s2 <= lim)%Z) by (unfold N, lim in *; specialize (D Hc); lia).
+      destruct r; [| |auto].
+      + intros s3 c' Ei. pose proof (iteration_end_frame _ _ _ Ei) as (F1 & F2 & _).
+        split; [eapply iteration_end_budget; eauto|]. split; [eapply iteration_end_sinv; eauto|].
+        unfold N. rewrite F2. split; [exact HN2|]. intros ->.
+        apply iteration_end_false in Ei. destruct Ei as (Hcr & _).
+        apply criterion_false_counts in Hcr. destruct Hcr as (Hcr & _). rewrite Hb in Hcr. apply zgt_false in Hcr.
+        destruct Hs2 as (S1 & _). rewrite <- (map_length fst), S1, seq_length in Hcr. exact Hcr.
+      + intros s3 c' Ei. pose proof (iteration_end_frame _ _ _ Ei) as (F1 & F2 & _).
+        split; [eapply iteration_end_budget; eauto|]. split; [eapply iteration_end_sinv; eauto|].
+        unfold N. rewrite F2. split; [exact HN2|]. intros ->.
+        apply iteration_end_false in Ei. destruct Ei as (Hcr & _).
+        apply criterion_false_counts in Hcr. destruct Hcr as (Hcr & _). rewrite Hb in Hcr. apply zgt_false in Hcr.
+        destruct Hs2 as (S1 & _). rewrite <- (map_length fst), S1, seq_length in Hcr. exact Hcr.
+    - unfold stop_condition in E0. injection E0 as <- _.
+      assert (N0 : N (emit (EStopCond (criterion prm (emit ECbTuningStart init_state) (o_clk o 0) || o_ext o 0)
+                  (criterion prm (emit ECbTuningStart init_state) (o_clk o 0) || o_ext o 0 || too_many_failures prm (emit ECbTuningStart init_state)))
+                  (set_nc (emit ECbTuningStart init_state) 1)) = 0%Z) by reflexivity.
+      split; [unfold binv; simpl; repeat split; [constructor|lia|intros t Ht; lia]|].
+      split; [unfold sinv; simpl; repeat split; [intros t []|discriminate]|].
+      rewrite N0. unfold lim. split; lia. }
+  destruct G as (_ & (S1 & _) & HN). unfold N in HN. rewrite <- (map_length fst), S1, seq_length. exact HN.
+Qed.
+
+(* max_num_trials_completed / max_num_trials_finished with wait_trial_completion_when_stopping=False *)
+Lemma overshoot_count (p : status -> bool) (budget : option Z) b fuel st x :
+  p InProgress = false -> wait_completion prm = false -> budget = Some b -> (0 <= b)%Z ->
+  (forall s now, criterion prm s now = false -> zgt (num_status p (s_smap s)) budget = false) ->
+  run_loop prm o fuel = (st, x) ->
+  (Z.of_nat (num_status p (s_smap st)) <= b + Z.of_nat (n_workers prm))%Z.
+Proof.
+  intros Hp Hw Hbud Hb0 Hcrit H.
+  set (N := fun s : state => Z.of_nat (num_status p (s_smap s))).
+  set (lim := (b + Z.of_nat (n_workers prm))%Z).
+  assert (G : binv st /\ (N st <= lim)%Z); [|apply G].
+  unfold run_loop in H. destruct (stop_condition prm o (emit ECbTuningStart init_state)) as [st0 c0] eqn:E0.
+  assert (Hend : forall s s' c', iteration_end prm o s = (s', c') -> c' = false -> (N s' <= b)%Z).
+  { intros s s' c' Ei ->. apply iteration_end_false in Ei. destruct Ei as (Hc & Hsm & _).
+    apply Hcrit in Hc. rewrite Hbud in Hc. apply zgt_false in Hc. unfold N. rewrite Hsm. exact Hc. }
+  eapply (loop_rule
+    (fun s c => binv s /\ (N s <= lim)%Z /\ (c = false -> (N s <= b)%Z))
+    (fun s c => binv s /\ (N s <= lim)%Z /\ c = false)
+    (fun s => binv s /\ (N s <= lim)%Z)); [| | | | |exact H|].
+  - intros s c (A & C & _). auto.
+  - intros s c s' err (A & C & D) Ew Ep.
+    assert (Hc : c = false).
+    { destruct c; [|reflexivity]. apply while_cond_true_c in Ew. congruence. }
+    pose proof (poll_count p _ _ _ Ep A) as Hcnt.
+    apply poll_budget in Ep; [|exact A]. destruct Ep as (Hb1 & _).
+    assert (HN : (N s' <= lim)%Z) by (unfold N, lim in *; specialize (D Hc); lia).
+    split; intros _; auto.
+  - intros s c (A & C & _). auto.
+  - intros s c ex s' c' (A & C & D) _ _ Ei.
+    pose proof (iteration_end_frame _ _ _ Ei) as (F1 & _).
+    split; [eapply iteration_end_budget; [exact Ei|apply binv_emit; exact A]|].
+    split; [unfold N; rewrite F1; exact C|]. apply (Hend _ _ _ Ei).
+  - intros s c ex s2 r (A & C & D) Eb Es.
+    pose proof (schedule_new_tasks_count p _ _ _ Hp Es) as (Hn & _).
+    pose proof (schedule_new_tasks_budget _ _ _ Es A) as (Hb2 & _).
+    assert (HN2 : (N s2 <= lim)%Z) by (unfold N in *; lia).
+    destruct r; [| |auto].
+    + intros s3 c' Ei. pose proof (iteration_end_frame _ _ _ Ei) as (F1 & _).
+      split; [eapply iteration_end_budget; eauto|]. split; [unfold N; rewrite F1; exact HN2|]. apply (Hend _ _ _ Ei).
+    + intros s3 c' Ei. pose proof (iteration_end_frame _ _ _ Ei) as (F1 & _).
+      split; [eapply iteration_end_budget; eauto|]. split; [unfold N; rewrite F1; exact HN2|]. apply (Hend _ _ _ Ei).
+  - unfold stop_condition in E0. injection E0 as <- _.
+    split; [unfold binv; simpl; repeat split; [constructor|lia|intros t Ht; lia]|].
+    unfold N, lim. simpl. split; lia.
+Qed.
+
+(* evaluations: what can be proved is "budget + results returned by the last poll" *)
+Lemma stats_add_count st r : s_count (stats_add st r) = (s_count st + 1)%Z.
+Proof. unfold stats_add. destruct r as [[t i] rep]. reflexivity. Qed.
+
+Lemma evals_bound_at_false_end st st' v :
+  c_evals prm = Some v -> iteration_end prm o st = (st', false) -> (s_count st' <= v)%Z.
+Proof.
+  intros Hv Ei. apply iteration_end_false in Ei. destruct Ei as (Hc & _ & _ & Hcnt).
+  apply criterion_false_counts in Hc. destruct Hc as (_ & _ & _ & Hc). rewrite Hv in Hc.
+  apply Z.ltb_ge in Hc. rewrite Hcnt. exact Hc.
+Qed.
+
+(* ======================================================================== *)
+(*  Part 9: trial ids (C01)                                                    *)
+(* ======================================================================== *)
+Definition is_start (e : event) : bool := match e with EBStart _ _ _ => true | _ => false end.
+Definition count_starts (tr : list event) : nat := count_ev is_start tr.
+(* every start_trial returns the number of earlier starts; suggest is asked for that id *)
+Fixpoint ids_ok (tr : list event) : Prop :=
+  match tr with
+  | [] => True
+  | e :: tr' => ids_ok tr' /\
+      match e with
+      | EBStart t _ _ => t = count_starts tr'
+      | ESSuggest n _ => n = count_starts tr'
+      | _ => True
+      end
+  end.
+Definition id_free (e : event) : bool := match e with EBStart _ _ _ | ESSuggest _ _ => false | _ => true end.
+
+Lemma ids_ok_app new tr : forallb id_free new = true -> ids_ok tr ->
+  ids_ok (new ++ tr) /\ count_starts (new ++ tr) = count_starts tr.
+Proof.
+  induction new as [|e new IH]; simpl; [auto|]. rewrite andb_true_iff. intros [H1 H2] Hok.
+  destruct (IH H2 Hok) as [A B]. split.
+  - split; [exact A|]. destruct e; auto; discriminate.
+  - unfold count_starts, count_ev in *. simpl. destruct e; simpl; auto; discriminate.
+Qed.
+
+Definition idinv (st : state) : Prop := ids_ok (s_trace st) /\ s_ntrials st = count_starts (s_trace st).
+
+Lemma idinv_ext Q st st' : (forall e, Q e = true -> id_free e = true) -> ext Q st st' ->
+  s_ntrials st' = s_ntrials st -> idinv st -> idinv st'.
+Proof.
+  intros HQ (new & Ht & F) Hn [A B]. unfold idinv. rewrite Ht, Hn.
+  assert (F' : forallb id_free new = true).
+  { rewrite forallb_forall in *. auto. }
+  destruct (ids_ok_app new _ F' A) as [A' B']. split; [exact A'|congruence].
+Qed.
+
+Lemma schedule_new_task_idinv st st' r : schedule_new_task o st = (st', r) -> idinv st -> idinv st'.
+Proof.
+  unfold schedule_new_task, idinv. intros H [A B].
+  destruct (o_sug o (s_ns st)) as [|cfg ck|id cfg].
+  - injection H as <- <-. simpl. auto.
+  - injection H as <- <-. simpl. unfold count_starts, count_ev in *. simpl. rewrite <- B. repeat split; auto.
+  - destruct (Nat.ltb id (s_ntrials st)); [|injection H as <- <-; simpl; auto].
+    destruct (b_td _); injection H as <- <-; simpl; auto.
+Qed.
+Lemma schedule_k_idinv k : forall st st' r, schedule_k o k st = (st', r) -> idinv st -> idinv st'.
+Proof.
+  induction k as [|k IH]; intros st st' r H Hi; simpl in H; [injection H as <- <-; exact Hi|].
+  destruct (schedule_new_task o st) as [st1 r1] eqn:E1. apply schedule_new_task_idinv in E1; [|exact Hi].
+  destruct r1; [eauto| |]; injection H as <- <-; exact E1.
+Qed.
+Lemma schedule_new_tasks_idinv st st' r : schedule_new_tasks prm o st = (st', r) -> idinv st -> idinv st'.
+Proof.
+  unfold schedule_new_tasks. destruct (Nat.leb _ _).
+  - intros H Hi. injection H as <- <-. destruct Hi as [A B]. unfold idinv. simpl. auto.
+  - apply schedule_k_idinv.
+Qed.
+
+Lemma poll_ev_id_free e : poll_ev e = true -> id_free e = true.
+Proof. destruct e; simpl; auto; discriminate. Qed.
+
+Lemma run_loop_idinv fuel st x : run_loop prm o fuel = (st, x) -> idinv st.
+Proof.
+  unfold run_loop. destruct (stop_condition prm o (emit ECbTuningStart init_state)) as [st0 c0] eqn:E0. intro H.
+  assert (Hend : forall s s' c', iteration_end prm o s = (s', c') -> idinv s -> idinv s').
+  { intros s s' c' Ei [A B]. unfold iteration_end, stop_condition in Ei. injection Ei as <- _. unfold idinv. simpl. auto. }
+  eapply (loop_rule (fun s _ => idinv s) (fun s _ => idinv s) idinv); [| | | | |exact H|].
+  - auto.
+  - intros s c s' err Hi _ Ep. pose proof (poll_ntrials _ _ _ Ep) as Hn. apply poll_ext in Ep.
+    assert (Hi' : idinv s') by (eapply idinv_ext; [apply poll_ev_id_free|exact Ep|exact Hn|exact Hi]). auto.
+  - auto.
+  - intros s c ex s' c' Hi _ _ Ei. apply (Hend _ _ _ Ei). destruct Hi as [A B]. unfold idinv. simpl. auto.
+  - intros s c ex s2 r Hi _ Es. apply schedule_new_tasks_idinv in Es; [|exact Hi].
+    destruct r; auto; intros s3 c' Ei; apply (Hend _ _ _ Ei Es).
+  - unfold stop_condition in E0. injection E0 as <- _. unfold idinv. simpl. auto.
+Qed.
+
+(* ======================================================================== *)
+(*  Part 10: trial life cycle and scheduler notifications (C01)                *)
+(* ======================================================================== *)
+(* events of the trace that concern trial [t], seen from scheduler and backend *)
+Inductive tev := TStart | TAdd | TRes (d : decision) | TStop | TPause | TRemove | TComplete | TError | TResume.
+Definition tev_of (t : nat) (e : event) : option tev :=
+  match e with
+  | EBStart t' _ _ => if Nat.eqb t' t then Some TStart else None
+  | ESAdd t' => if Nat.eqb t' t then Some TAdd else None
+  | ESResult t' _ d => if Nat.eqb t' t then Some (TRes d) else None
+  | EBStop t' => if Nat.eqb t' t then Some TStop else None
+  | EBPause t' => if Nat.eqb t' t then Some TPause else None
+  | ESRemove t' => if Nat.eqb t' t then Some TRemove else None
+  | ESComplete t' _ => if Nat.eqb t' t then Some TComplete else None
+  | ESError t' => if Nat.eqb t' t then Some TError else None
+  | EBResume t' _ => if Nat.eqb t' t then Some TResume else None
+  | _ => None
+  end.
+(* PN not started, PA started (on_trial_add pending), PR running/reporting, PS1 STOP decided,
+   PS2 backend stopped, PP1 PAUSE decided, PP2 backend paused, PZ paused, PE ended, PBad illegal *)
+Inductive phase := PN | PA | PR | PS1 | PS2 | PP1 | PP2 | PZ | PE | PBad.
+Definition pstep (p : phase) (x : tev) : phase :=
+  match p, x with
+  | PN, TStart => PA
+  | PA, TAdd => PR
+  | PR, TRes CONTINUE => PR
+  | PR, TRes STOP => PS1
+  | PR, TRes PAUSE => PP1
+  | PS1, TStop => PS2
+  | PS1, TRemove => PE          (* STOP on a trial the poll showed as Completed: no backend call *)
+  | PS2, TRemove => PE
+  | PP1, TPause => PP2
+  | PP2, TRemove => PZ
+  | PR, TComplete => PE
+  | PR, TError => PE
+  | PZ, TResume => PR
+  | _, _ => PBad
+  end.
+(* [tr] newest first *)
+Fixpoint phase_of (t : nat) (tr : list event) : phase :=
+  match tr with
+  | [] => PN
+  | e :: tr' => match tev_of t e with Some x => pstep (phase_of t tr') x | None => phase_of t tr' end
+  end.
+
+Lemma phase_of_app_none t new tr :
+  (forall e, In e new -> tev_of t e = None) -> phase_of t (new ++ tr) = phase_of t tr.
+Proof.
+  induction new as [|e new IH]; simpl; [reflexivity|]. intro H.
+  rewrite (H e) by (left; reflexivity). apply IH. intros e' He'. apply H. right. exact He'.
+Qed.
+
+Definition LI (st : state) : Prop :=
+  (forall t, phase_of t (s_trace st) <> PBad) /\
+  (forall t, s_ntrials st <= t -> phase_of t (s_trace st) = PN) /\
+  (forall t, td_of st t = Paused \/ w_of st t = Paused -> phase_of t (s_trace st) = PZ).
+
+(* trials of [ks] not yet in done_trials are running/reporting *)
+Definition PRok (st : state) (ks : list nat) (done : list (nat * status)) : Prop :=
+  forall t, In t ks -> amem t done = false -> phase_of t (s_trace st) = PR.
+
+Lemma fetch_LI order st st' sd rs :
+  fetch o order st = (st', sd, rs) -> LI st -> LI st' /\ (forall t, phase_of t (s_trace st') = phase_of t (s_trace st)).
+Proof.
+  intros H (L1 & L3 & L4). apply fetch_spec in H.
+  destruct H as (A & _ & _ & Htd & Htd' & Hp & _).
+  destruct A as (_ & Hn & Htr & _).
+  split; [|intro t; rewrite Htr; reflexivity].
+  unfold LI. rewrite Htr, Hn. split; [exact L1|]. split; [exact L3|].
+  intros t [H|H].
+  - destruct (in_dec Nat.eq_dec t order) as [Hi|Hni].
+    + rewrite (Htd t Hi) in H. apply L4. right. apply Hp. exact H.
+    + rewrite (Htd' t Hni) in H. apply L4. left. exact H.
+  - apply L4. right. apply Hp. exact H.
+Qed.
+
+(* a group of events about one trial [t] that was not in phase PN *)
+Lemma LI_step st st' t new p0 p' :
+  s_trace st' = new ++ s_trace st ->
+  (forall x, x <> t -> forall e, In e new -> tev_of x e = None) ->
+  phase_of t (s_trace st) = p0 -> p0 <> PN ->
+  phase_of t (s_trace st') = p' -> p' <> PBad ->
+  s_ntrials st' = s_ntrials st ->
+  (forall x, x <> t -> td_of st' x = td_of st x /\ w_of st' x = w_of st x) ->
+  (td_of st' t = Paused \/ w_of st' t = Paused -> p' = PZ) ->
+  LI st -> LI st' /\ (forall x, x <> t -> phase_of x (s_trace st') = phase_of x (s_trace st)).
+Proof.
+  intros Htr Hnone Hp0 Hp0n Hp' Hp'n Hn Hbt Hz (L1 & L3 & L4).
+  assert (Hother : forall x, x <> t -> phase_of x (s_trace st') = phase_of x (s_trace st)).
+  { intros x Hx. rewrite Htr. apply phase_of_app_none. intros e He. apply (Hnone x Hx e He). }
+  split; [|exact Hother]. unfold LI. split; [|split].
+  - intro x. destruct (Nat.eq_dec x t) as [->|Hx]; [rewrite Hp'; exact Hp'n|rewrite Hother by exact Hx; apply L1].
+  - intros x Hx. rewrite Hn in Hx. destruct (Nat.eq_dec x t) as [->|Hxt].
+    + exfalso. apply Hp0n. rewrite <- Hp0. apply L3. exact Hx.
+    + rewrite Hother by exact Hxt. apply L3. exact Hx.
+  - intros x Hx. destruct (Nat.eq_dec x t) as [->|Hxt].
+    + rewrite Hp'. apply Hz. exact Hx.
+    + rewrite Hother by exact Hxt. apply L4. destruct (Hbt x Hxt) as [E1 E2]. rewrite E1, E2 in Hx. exact Hx.
+Qed.
+
+Lemma result_step_life sd ks st done r st' done' :
+  result_step o sd (st, done) r = (st', done') -> In (fst (fst r)) ks ->
+  LI st -> PRok st ks done -> LI st' /\ PRok st' ks done'.
+Proof.
+  unfold result_step. destruct r as [[t idx] rep]. cbn [fst]. destruct (amem t done) eqn:Em.
+  { intro H; injection H as <- <-. auto. }
+  destruct (notify_result o sd t idx st) as [[st1 s] d] eqn:En. intros Ha Ht HLI HPR.
+  apply notify_result_spec in En. destruct En as (_ & _ & Hc1 & Hbt1 & Htr1 & _).
+  apply apply_decision_spec in Ha. destruct Ha as (Hc2 & _ & Ha).
+  assert (Hpt : phase_of t (s_trace st) = PR) by (apply HPR; auto).
+  assert (Hnt : s_ntrials st1 = s_ntrials st) by (apply Hc1).
+  assert (Hnt2 : s_ntrials st' = s_ntrials st1) by (apply Hc2).
+  assert (Hneq : forall x, x <> t -> Nat.eqb t x = false) by (intros x Hx; apply Nat.eqb_neq; congruence).
+  assert (Hpaused : td_of st t = Paused \/ w_of st t = Paused -> False).
+  { intro H. destruct HLI as (_ & _ & L4). apply L4 in H. congruence. }
+  assert (HPRupd : forall (stx : state) dn, LI stx ->
+            (forall x, x <> t -> phase_of x (s_trace stx) = phase_of x (s_trace st)) ->
+            (amem t dn = false -> phase_of t (s_trace stx) = PR) ->
+            (forall x, amem x dn = false -> amem x done = false) -> LI stx /\ PRok stx ks dn).
+  { intros stx dn HL Ho Htt Hdn. split; [exact HL|]. intros x Hx Hxm.
+    destruct (Nat.eq_dec x t) as [->|Hxt]; [auto|]. rewrite Ho by exact Hxt. apply HPR; auto. }
+  destruct d.
+  - (* CONTINUE *) destruct Ha as [-> ->].
+    destruct (LI_step st st1 t [ECbResult t s idx CONTINUE; ESResult t idx CONTINUE] PR PR) as [HL Ho]; auto; try discriminate.
+    + intros x Hx e [<-|[<-|[]]]; simpl; rewrite ?(Hneq x Hx); reflexivity.
+    + rewrite Htr1. simpl. rewrite Nat.eqb_refl, Hpt. reflexivity.
+    + intros x _. rewrite Hbt1. auto.
+    + rewrite Hbt1. intro H. exfalso. auto.
+    + apply HPRupd; auto. intros _. rewrite Htr1. simpl. rewrite Nat.eqb_refl, Hpt. reflexivity.
+  - (* PAUSE *) destruct Ha as (-> & _ & Htr2 & Hw2 & Htd2).
+    destruct (LI_step st st' t [ESRemove t; EBPause t; ECbResult t s idx PAUSE; ESResult t idx PAUSE] PR PZ) as [HL Ho]; auto; try discriminate.
+    + rewrite Htr2, Htr1. reflexivity.
+    + intros x Hx e [<-|[<-|[<-|[<-|[]]]]]; simpl; rewrite ?(Hneq x Hx); reflexivity.
+    + rewrite Htr2, Htr1. simpl. rewrite Nat.eqb_refl, Hpt. reflexivity.
+    + congruence.
+    + intros x Hx. rewrite Hw2, Htd2, Hbt1. apply Nat.eqb_neq in Hx. rewrite Hx. auto.
+    + apply HPRupd; auto.
+      * intro H. rewrite amem_aset, Nat.eqb_refl in H. discriminate.
+      * intros x Hx. rewrite amem_aset in Hx. apply orb_false_iff in Hx. tauto.
+  - (* STOP *) destruct Ha as (_ & Htd2 & Ha).
+    assert (Hcase : exists new dn, done' = aset t dn done /\ s_trace st' = new ++ s_trace st /\
+              phase_of t (new ++ s_trace st) = PE /\
+              (forall x, x <> t -> forall e, In e new -> tev_of x e = None) /\
+              (forall x, x <> t -> w_of st' x = w_of st x) /\ w_of st' t <> Paused).
+    { destruct s;
+        try (destruct Ha as (-> & Htr2 & Hw2);
+             eexists [ESRemove t; EBStop t; ECbResult t _ idx STOP; ESResult t idx STOP], Stopped;
+             split; [reflexivity|]; split; [rewrite Htr2, Htr1; reflexivity|];
+             split; [simpl; rewrite Nat.eqb_refl, Hpt; reflexivity|];
+             split; [intros x Hx e [<-|[<-|[<-|[<-|[]]]]]; simpl; rewrite ?(Hneq x Hx); reflexivity|];
+             split; [intros x Hx; rewrite Hw2, Hbt1; apply Nat.eqb_neq in Hx; rewrite Hx; reflexivity|];
+             rewrite Hw2, Nat.eqb_refl; discriminate).
+      destruct Ha as (-> & Htr2 & Hbt2).
+      exists [ESRemove t; ECbResult t Completed idx STOP; ESResult t idx STOP], Completed.
+      split; [reflexivity|]. split; [rewrite Htr2, Htr1; reflexivity|].
+      split; [simpl; rewrite Nat.eqb_refl, Hpt; reflexivity|].
+      split; [intros x Hx e [<-|[<-|[<-|[]]]]; simpl; rewrite ?(Hneq x Hx); reflexivity|].
+      split; [intros x Hx; rewrite Hbt2, Hbt1; reflexivity|].
+      rewrite Hbt2, Hbt1. intro H. apply Hpaused. auto. }
+    destruct Hcase as (new & dn & -> & Htr' & Hph & Hnone & Hwo & Hwt).
+    destruct (LI_step st st' t new PR PE) as [HL Ho]; auto; try discriminate.
+    + rewrite Htr'. exact Hph.
+    + congruence.
+    + intros x Hx. rewrite Htd2, Hbt1, (Hwo x Hx). auto.
+    + intros [H|H]; [|contradiction]. exfalso. apply Hpaused. left. rewrite Htd2, Hbt1 in H. exact H.
+    + apply HPRupd; auto.
+      * intro H. rewrite amem_aset, Nat.eqb_refl in H. discriminate.
+      * intros x Hx. rewrite amem_aset in Hx. apply orb_false_iff in Hx. tauto.
+Qed.
+
+Lemma LI_quiet st st' new :
+  s_trace st' = new ++ s_trace st -> (forall x e, In e new -> tev_of x e = None) ->
+  s_ntrials st' = s_ntrials st -> s_bt st' = s_bt st ->
+  LI st -> LI st' /\ (forall x, phase_of x (s_trace st') = phase_of x (s_trace st)).
+Proof.
+  intros Htr Hnone Hn Hbt (L1 & L3 & L4).
+  assert (Ho : forall x, phase_of x (s_trace st') = phase_of x (s_trace st)).
+  { intro x. rewrite Htr. apply phase_of_app_none. intros e He. eapply Hnone; eauto. }
+  split; [|exact Ho]. unfold LI. rewrite Hn, Hbt. repeat split; intro x; rewrite Ho; auto.
+Qed.
+
+Lemma PRok_aset_in st st' ks done t v :
+  (forall x, x <> t -> phase_of x (s_trace st') = phase_of x (s_trace st)) ->
+  PRok st ks done -> PRok st' ks (aset t v done).
+Proof.
+  intros Ho HPR x Hx Hm. rewrite amem_aset in Hm. apply orb_false_iff in Hm. destruct Hm as [Hxt Hm].
+  apply Nat.eqb_neq in Hxt. rewrite Ho by exact Hxt. apply HPR; auto.
+Qed.
+
+Lemma status_step_life ks st done err e st' done' err' :
+  status_step (st, done, err) e = (st', done', err') -> In (fst e) ks ->
+  LI st -> PRok st ks done -> (amem (fst e) done = true -> hidden (snd e) = false) ->
+  LI st' /\ PRok st' ks done'.
+Proof.
+  unfold status_step. destruct err as [e0|].
+  { intro H; injection H as <- <- <-. auto. }
+  destruct e as [t s]. cbn [fst snd]. intros H Ht HLI HPR Hhid.
+  assert (Hneq : forall x, x <> t -> Nat.eqb t x = false) by (intros x Hx; apply Nat.eqb_neq; congruence).
+  assert (Hpaused : phase_of t (s_trace st) = PR -> td_of st t = Paused \/ w_of st t = Paused -> False).
+  { intros Hp Hx. destruct HLI as (_ & _ & L4). apply L4 in Hx. congruence. }
+  (* the trial's run ends here with one notification [ev] *)
+  assert (Hend : forall ev extra v, amem t done = false -> tev_of t ev = Some TComplete \/ tev_of t ev = Some TError ->
+            (forall x, x <> t -> tev_of x ev = None) -> (forall x e, In e extra -> tev_of x e = None) ->
+            forall stx, s_trace stx = extra ++ ev :: s_trace st -> s_ntrials stx = s_ntrials st -> s_bt stx = s_bt st ->
+            LI stx /\ PRok stx ks (aset t v done)).
+  { intros ev extra v Hm Hev Hevo Hex stx Htr Hn Hbt.
+    assert (Hpt : phase_of t (s_trace st) = PR) by (apply HPR; auto).
+    destruct (LI_step st stx t (extra ++ [ev]) PR PE) as [HL Ho]; auto; try discriminate.
+    - rewrite Htr, <- app_assoc. reflexivity.
+    - intros x Hx e He. apply in_app_or in He. destruct He as [He|[<-|[]]]; [eapply Hex; eauto|apply Hevo; exact Hx].
+    - rewrite Htr. rewrite phase_of_app_none by (intros e He; eapply Hex; eauto). simpl.
+      destruct Hev as [-> | ->]; rewrite Hpt; reflexivity.
+    - intros x _. rewrite Hbt. auto.
+    - rewrite Hbt. intro Hx. exfalso. eapply Hpaused; eauto.
+    - split; [exact HL|]. eapply PRok_aset_in; eauto. }
+  (* nothing about any trial is emitted *)
+  assert (Hquiet : forall extra v, (forall x e, In e extra -> tev_of x e = None) ->
+            forall stx, s_trace stx = extra ++ s_trace st -> s_ntrials stx = s_ntrials st -> s_bt stx = s_bt st ->
+            amem t done = true -> LI stx /\ PRok stx ks (aset t v done)).
+  { intros extra v Hex stx Htr Hn Hbt Hm.
+    destruct (LI_quiet st stx extra) as [HL Ho]; auto.
+    split; [exact HL|]. eapply PRok_aset_in; eauto. }
+  destruct s; try solve [injection H as <- <- <-; auto].
+  - (* Completed *)
+    destruct (s_last st t) as [idx|]; [|injection H as <- <- <-; auto].
+    destruct (amem t done) eqn:Em.
+    + destruct (match aget t done with Some Paused => Paused | _ => Completed end) eqn:Es';
+        injection H as <- <- <-;
+        try (apply (Hquiet [] _); auto; intros x e []; fail).
+      apply (Hquiet [ECbComplete t idx]); auto. intros x e [<-|[]]. reflexivity.
+    + assert (Hnone : aget t done = None) by (unfold amem in Em; destruct (aget t done); [discriminate|reflexivity]).
+      rewrite Hnone in H. injection H as <- <- <-.
+      apply (Hend (ESComplete t idx) [ECbComplete t idx]); auto.
+      * left. simpl. rewrite Nat.eqb_refl. reflexivity.
+      * intros x Hx. simpl. rewrite (Hneq x Hx). reflexivity.
+      * intros x e [<-|[]]. reflexivity.
+  - (* Failed *)
+    destruct (amem t done) eqn:Em; injection H as <- <- <-.
+    + apply (Hquiet []); auto. intros x e [].
+    + apply (Hend (ESError t) []); auto.
+      * right. simpl. rewrite Nat.eqb_refl. reflexivity.
+      * intros x Hx. simpl. rewrite (Hneq x Hx). reflexivity.
+      * intros x e [].
+  - (* Stopped *)
+    destruct (mem_nat t (s_sstopped st)); injection H as <- <- <-; [auto|].
+    destruct (amem t done) eqn:Em; [specialize (Hhid eq_refl); discriminate|].
+    apply (Hend (ESError t) []); auto.
+    + right. simpl. rewrite Nat.eqb_refl. reflexivity.
+    + intros x Hx. simpl. rewrite (Hneq x Hx). reflexivity.
+    + intros x e [].
+Qed.
+
 End Proofs.
